@@ -293,7 +293,12 @@ func (ev *Eval) eval(e Expr) Val {
 			return v
 		}
 		if ev.g.isGhost(x.Name) {
-			return Val{Term: s.ghostGet(ev.mem, x.Name, ev.g.ghostSort(x.Name))}
+			t := s.ghostGet(ev.mem, x.Name, ev.s.ghostSortOf(x.Name))
+			if gd, ok := ev.g.db.Ghosts[x.Name]; ok && gd[0] != "int" && gd[0] != "bool" {
+				srt, gt := ev.g.specSort(s, gd[0], gd[1], nil)
+				return ev.wrapSpec(t, srt, gt)
+			}
+			return Val{Term: t}
 		}
 		if uf := ev.g.db.UFuns[x.Name]; uf != nil && len(uf.Args) == 0 {
 			return ev.specCall(x.Name, nil)
